@@ -4,8 +4,8 @@ From GIV.Gen Require Import AnnNames UnicodeRe BlockRegex.
 From GIV.Model Require Import C02 C10 C10B.
 Import ListNotations.
 
-Arguments parse_annotations_d : simpl never.
-Arguments parse_fields_d : simpl never.
+#[local] Arguments parse_annotations_d : simpl never.
+#[local] Arguments parse_fields_d : simpl never.
 
 (* C11: "a malformed annotation is ignored rather than half-applied" *)
 
